@@ -877,6 +877,14 @@ func lockHoldersDoNotBlock(c *Check) {
 		if e.Kind == "acquire" {
 			acq++
 		}
+		if e.Kind == "reacquire" {
+			bad++
+			c.Bad("lock-holders-do-not-block", fmt.Sprintf("%s: %s acquired again in %s", e.EP, e.What, e.Fn), e.Pos, "a non-reentrant mutex is acquired while the same activation already holds it: the worker deadlocks on itself and never observes cancellation; stack "+strings.Join(e.Stack, " > "))
+		}
+		if e.Kind == "undecided" {
+			bad++
+			c.Unk("lock-holders-do-not-block", fmt.Sprintf("%s: %s in %s", e.EP, e.What, e.Fn), e.Pos, "unrecognised locking idiom")
+		}
 		if e.Kind == "block" && len(e.Held) > 0 {
 			bad++
 			c.Bad("lock-holders-do-not-block", fmt.Sprintf("%s: %s in %s", e.EP, e.What, e.Fn), e.Pos, "blocking operation while holding "+strings.Join(e.Held, ",")+": a worker waiting for this mutex cannot be cancelled")
